@@ -22,6 +22,13 @@ def _absorb_comm(oc: Outcome, res: dict[str, Any]) -> None:
     oc.absorb_result({'incs': [res]})
 
 
+def _drop_sub(p: dict[str, Any]) -> None:
+    p['sub'] = None
+    for c in p.get('calls', []):
+        if c.get('group') == 'sub':
+            c['group'] = 'world'
+
+
 class CommCase(BaseCase):
     ops_key = 'calls'
     components = COMPONENTS_COMM
@@ -41,12 +48,17 @@ class CommCase(BaseCase):
             if p.get('kind') != 'comm' or p['world'] <= 2:
                 return False
             p['world'], p['rows'] = 2, 1
+            _drop_sub(p)
             return True
 
         def world4(p: dict[str, Any]) -> bool:
             if p.get('kind') != 'comm' or p['world'] <= 4:
                 return False
             p['world'], p['rows'] = 4, 2
+            if p.get('sub'):
+                p['sub'] = sorted({r % 4 for r in p['sub']})
+                if len(p['sub']) < 2 or len(p['sub']) == 4:
+                    _drop_sub(p)
             return True
 
         def small_shapes(p: dict[str, Any]) -> bool:
@@ -206,7 +218,7 @@ def _triu_sweep(plan: dict[str, Any], bad: Any, oc: Outcome) -> None:
                           'dtype': plan['dtype'], 'symmetric': True,
                           'symmetric_data': True, 'average': False,
                           'src_pos': 1, 'noncontig': False})
-    p2 = {'kind': 'comm', 'world': 2, 'rows': 1,
+    p2 = {'kind': 'comm', 'world': 2, 'rows': 1, 'sub': None,
           'group_order': ['row', 'col', 'self'], 'cap_mb': 0.001,
           'calls': calls,
           'sim': {'policy': 'lazy', 'poison': True, 'latency': 0.0,
@@ -291,9 +303,32 @@ class C06(AssignCase):
         return assign.kaisa_enum(tier) + assign.hashseed_plans('kaisa')
 
     def gen(self, rng: random.Random, tier: str) -> dict[str, Any]:
-        from simkfac import assign
+        from simkfac import assign, gen
 
+        if rng.random() < 0.12:
+            # the assignment as a running job really gets it: built by
+            # KFACPreconditioner on every simulated rank under a launcher
+            # environment (ranks per node), one training step
+            plan = gen.gen_train_plan(rng, tier=tier, min_world=2,
+                                      restarts=0.0, extras=0.0, max_ops=4,
+                                      scheduler=0.0)
+            plan['sim']['local_size'] = rng.choice([1, 2, 2, 4])
+            return plan
         return assign.gen_kaisa(rng, tier)
+
+    def evaluate(self, plan: dict[str, Any], tapes: Any = None) -> Outcome:
+        if plan['kind'] != 'train':
+            return super().evaluate(plan, tapes)
+        from simkfac import cases
+
+        tc = cases.C03()
+        oc = Outcome()
+        res, rep, tp = tc.run_and_analyse(plan, oc, tapes)
+        oc.tapes = tp
+        oc.violations = rep.for_prop('C06')
+        oc.nontrivial = [f'train/{plan["world"]}/{plan["placement"]["k"]}/'
+                         f'{plan["sim"].get("local_size")}']
+        return oc
 
 
 class C12(AssignCase):
